@@ -14,6 +14,7 @@ import (
 	"github.com/hashicorp/go-multierror"
 	"github.com/ipni/go-libipni/announce/message"
 	"github.com/libp2p/go-libp2p/core/peer"
+	"github.com/multiformats/go-multiaddr"
 )
 
 const DefaultAnnouncePath = "/announce"
@@ -131,6 +132,13 @@ func (s *Sender) addIDToAddrs(msg *message.Message) error {
 	p2pAddrs, err := peer.AddrInfoToP2pAddrs(&ai)
 	if err != nil {
 		return err
+	}
+	// Nothing may follow a path component (as in /unix/...): with the ID
+	// appended, such an address cannot be decoded by the receiver.
+	for i, a := range p2pAddrs {
+		if _, err = multiaddr.NewMultiaddrBytes(a.Bytes()); err != nil {
+			return fmt.Errorf("cannot add publisher ID to address %s: %w", addrs[i], err)
+		}
 	}
 	msg.SetAddrs(p2pAddrs)
 	return nil
